@@ -589,6 +589,7 @@ func runCachePut(tier string, seed int64, model string, replay string) *corr.Res
 	h.runC12()
 	h.runC11()
 	h.runShared(sharedConfigs(tier))
+	h.runLenSources(lenConfigs())
 	if tier == "thorough" {
 		h.runRealOS()
 	}
